@@ -701,6 +701,10 @@ fn main() {
         ctx.harness(Config::new("writer_finish_after_error", ctx.by_tier(1, 2)), |ch| {
             writer_body(ch, &scripts_q[..2], &pools[..2], &[WEnd::FinishAfterError], true, CostModel::Preempt)
         });
+        // W1b: the largest pool size the statement names (window = 16 tickets): nothing may depend on it
+        ctx.harness(Config::new("writer_pool16", ctx.by_tier(1, 2)), |ch| {
+            writer_body(ch, &scripts_q[..2], &[16, 8], &[WEnd::Finish], false, CostModel::Preempt)
+        });
         // W4: short-write / Interrupted sinks (C14's short-write clause for the multithreaded writer)
         ctx.harness(Config::new("writer_short_sinks", ctx.by_tier(1, 2)), |ch| {
             writer_body_with(ch, &scripts_q[..3], &pools[..2], &[WEnd::Finish, WEnd::Drop], false, CostModel::Preempt, &[SinkMode::OneByte, SinkMode::Half, SinkMode::Alternating])
@@ -733,6 +737,10 @@ fn main() {
         cases.push(make_case(&[3, 5, 2], true, Corrupt::None, vec![ReadToEnd, Seek(0, 1), Read(1), Seek(2, 0), ReadToEnd]));
         cases.push(make_case(&[3, 0, 4], true, Corrupt::None, vec![Read(1), Seek(1, 0), Read(2), Finish]));
         cases.push(make_case(&[3, 5, 2], true, Corrupt::None, vec![Read(1), Finish]));
+        // seek to the end-of-stream position (file length) and to the EOF marker block
+        cases.push(make_case(&[3, 5, 2], true, Corrupt::None, vec![Read(2), Seek(4, 0), Read(4), Seek(1, 1), Read(2)]));
+        cases.push(make_case(&[3, 5], false, Corrupt::None, vec![ReadToEnd, Seek(2, 0), Read(4), Seek(0, 2), ReadToEnd]));
+        cases.push(make_case(&[3, 5, 2], true, Corrupt::None, vec![Read(2), Seek(3, 0), Read(4)]));
         let n_plain = cases.len();
         for c in [Corrupt::Crc(1), Corrupt::Deflate(1), Corrupt::Magic(1), Corrupt::Crc(0), Corrupt::Magic(2)] {
             cases.push(make_case(&[3, 5, 2], true, c, vec![ReadToEnd]));
@@ -747,6 +755,9 @@ fn main() {
         let rb = ctx.by_tier(2, 3);
         ctx.harness(Config::new("reader_delay", rb), |ch| {
             reader_body(ch, &cases, &rpools, CostModel::Delay, true)
+        });
+        ctx.harness(Config::new("reader_pool16", ctx.by_tier(1, 2)), |ch| {
+            reader_body(ch, &cases[..7], &[16], CostModel::Delay, false)
         });
         // every completion order of the in-flight window: preemption bounding on the smallest files
         let small: Vec<RCase> = vec![
